@@ -8,7 +8,7 @@
 (* real constructors, the invariants below are the listed properties       *)
 (* stated on the specification itself.                                     *)
 (***************************************************************************)
-EXTENDS PuanCtor
+EXTENDS PuanPrioOps
 
 CONSTANTS Leaves,      \* set of leaf recipes [c |-> "leaf", id, lo, hi]
           Classes,     \* subset of {"AtLeast","AtMost","All","Any","Xor","XNor","Imply","Not"}
@@ -106,6 +106,22 @@ C08 == (~IsAtom(F) /\ WellDefined(F)) => \A D \in Dicts(Ids(F)) :
           LET m == Assm(F, D) r == IF IsAtom(m) THEN m ELSE Red(m) IN
           /\ NoConstInside(r)
           /\ \A a0 \in Box(F) : LET a == Restr(AsIv(a0), DOMAIN a0 \ DOMAIN D) IN Iv(r, a) = Iv(m, a)
+\* C14 / C15 on the specification: for a configurator, the shadow-compressed [defaults ; user priorities] objective
+\* ranks all feasible points of the specified polyhedron lexicographically by levels; hence a feasible prioritised
+\* item is selected, and without priorities the optimum avoids every non-default branch it can and is stingy
+CfgPrios == LET L == SetToSeq(RLeafIds(focus)) IN
+            {EmptyFn} \cup { (L[i] :> v) : i \in DOMAIN L, v \in {-2, -1, 1, 2} }
+                     \cup { (L[i] :> v) @@ (L[k] :> u) : i \in DOMAIN L, k \in DOMAIN L, v \in {1, 2}, u \in {-1, 1, 2} }
+C14 == (focus.c = "Cfg" /\ WellDefined(F)) =>
+         LET sp == SpecPoly(F)  P == PolyPts(sp) IN
+         \A pr \in CfgPrios : LET Xl == LevelMatrix(sp.cols, sp.dpv, pr)  w == Shadow(Xl) IN
+            /\ RanksOn(Xl, w, P)
+            \* a feasible prioritised item (positive priority, alone at the top level) is selected by every optimum
+            /\ \A j \in DOMAIN sp.cols : (sp.cols[j].id \in DOMAIN pr /\ pr[sp.cols[j].id] > 0
+                                            /\ (\A i \in DOMAIN pr : i # sp.cols[j].id => Abs(pr[i]) < pr[sp.cols[j].id])
+                                            /\ (\E x \in P : x[j] = 1))
+                                          => \A x \in ArgMax(w, P) : x[j] >= 1
+C15 == C14
 \* C16 / C17 on the specification: the abstract JSON codec (recipe -> document -> recipe) and the base64 codec are
 \* identities on recipes, so the round trip rebuilds the same node; what is stated here is that the node a
 \* recipe denotes is determined by the recipe (Mk is a function) and has the recipe's leaves.
